@@ -269,4 +269,48 @@ theorem parked_exec (cfg : Cfg) (hn : cfg.tdNotify = false) (as : List Act) :
     rw [exec_cons]
     exact ih _ (fun x hx => hq x (by simp [hx])) (parked_step cfg hn s a (hq a (by simp)) h)
 
+/-! ### a requested reset leads to a new initialisation -/
+
+/-- thread moves still needed to reach the next `initialization_step()` when the filter is asked
+to run, the run condition holds and a reset is pending or the new epoch has begun -/
+def vInit : PC → Nat
+  | .preInit => 0 | .waiting => 1 | .preWait => 1 | .zero => 2 | .top => 3 | .outD => 4 | .outC => 5
+  | .outB => 5 | .outA => 6 | .afterLoop => 7 | .inC => 8 | .inB => 9 | .inA => 10 | .incr => 11
+  | .inStep => 12 | .aboutStep => 13 | .inInit => 11 | .blocking => 2 | .preFinal => 0 | .done => 0
+
+/-- the filter is asked to run, not torn down, no `reboot()` in progress, and either a reset is
+pending or the thread is already on its way from the loop top to the initialisation -/
+def Resetting (s : St) : Prop :=
+  NoLost Cfg.current s ∧ s.run = true ∧ s.teardown = false ∧ s.mid = false ∧
+  s.pc ≠ .preFinal ∧ s.pc ≠ .done ∧
+  (s.reset = true ∨ s.pc = .top ∨ s.pc = .zero ∨ s.pc = .preWait ∨ s.pc = .waiting ∨ s.pc = .preInit ∨ s.pc = .outD)
+
+theorem resetting_step (s : St) (h : Resetting s) (hp : s.pc ≠ .preInit) :
+    Resetting (step Cfg.current s (.t true)) ∧ vInit (step Cfg.current s (.t true)).pc < vInit s.pc := by
+  obtain ⟨pc, run, reset, td, stp, woken, mid, joined, hist⟩ := s
+  simp only [Resetting, NoLost, Cfg.current] at h
+  obtain ⟨hL, hr, ht, hm, h1, h2, h3⟩ := h
+  simp only at hr ht hm hp h1 h2; subst hr; subst ht; subst hm
+  cases pc <;> simp only [step, thr] <;> (repeat' split) <;>
+    simp only [Option.getD, vInit, Resetting, NoLost, Cfg.current]
+    <;> (first | (refine ⟨?_, by omega⟩; simp_all; done) | (exfalso; simp_all; done) | grind)
+
+theorem reset_leads_to_init_from : ∀ (n : Nat) (s : St), Resetting s → vInit s.pc ≤ n →
+    ∃ m, m ≤ n ∧ (exec Cfg.current s (List.replicate m (.t true))).pc = .preInit := by
+  intro n
+  induction n with
+  | zero =>
+    intro s h hv
+    refine ⟨0, Nat.le_refl _, ?_⟩
+    obtain ⟨pc, run, reset, td, stp, woken, mid, joined, hist⟩ := s
+    simp only [Resetting] at h
+    cases pc <;> simp_all [vInit, exec]
+  | succ n ih =>
+    intro s h hv
+    by_cases hp : s.pc = .preInit
+    · exact ⟨0, Nat.zero_le _, by simpa [exec] using hp⟩
+    · obtain ⟨h', hlt⟩ := resetting_step s h hp
+      obtain ⟨m, hm, hpc⟩ := ih _ h' (by omega)
+      exact ⟨m + 1, by omega, by simpa [List.replicate_succ, exec_cons] using hpc⟩
+
 end BFL.Life
